@@ -694,7 +694,7 @@ def fr_log(q):
     return math.log(q.numerator) - math.log(q.denominator)
 
 
-E2E_KINDS = ["matern", "matern_ard", "warped", "product", "expdecay", "tuple_scale"]
+E2E_KINDS = ["matern", "matern_ard", "warped", "warped2", "product", "expdecay", "tuple_scale"]
 
 
 def build_model(kind, d, zero_mean):
@@ -706,6 +706,11 @@ def build_model(kind, d, zero_mean):
         k = Matern52(d, ARD=True)
     elif kind == "warped":
         k = WarpedKernel(Matern52(d, ARD=True), [Warping(d, (0, max(1, d - 1)))])
+    elif kind == "warped2":
+        # two warping blocks on non-contiguous coordinate ranges (what `kernel_with_warping` builds when a
+        # categorical hyperparameter sits between numerical ones); needs d >= 3
+        dd = max(3, d)
+        k = WarpedKernel(Matern52(dd, ARD=True), [Warping(dd, (0, 1)), Warping(dd, (2, dd))])
     elif kind == "product":
         d1 = max(1, d // 2)
         k = ProductKernelFunction(Matern52(d1, ARD=True), Matern52(max(1, d - d1)))
@@ -730,6 +735,8 @@ def kernel_dim(kind, d):
         return d1 + max(1, d - d1)
     if kind == "expdecay":
         return max(1, d - 1) + 1
+    if kind == "warped2":
+        return max(3, d)
     return d
 
 
@@ -832,6 +839,18 @@ def run_e2e08(spec):
         return np.asarray(mean(A)).reshape(-1)
 
     K = kmat(X, X)
+    # composite kernels: the value must be the composition of the parts (each part is the real object)
+    if kind in ("warped", "warped2"):
+        def warp(Z):
+            for w in k.warpings:
+                Z = np.asarray(w(Z))
+            return Z
+        Kc = np.asarray(k.kernel(warp(X), warp(Xs)))
+        Kg = np.asarray(k(X, Xs))
+        dl = float(np.max(np.abs(Kc - Kg))) if Kc.size else 0.0
+        if not dl <= 1e-10 * max(1.0, float(np.abs(Kc).max())):
+            mon.append(F("c08:kernel-composition", f"WarpedKernel with {len(k.warpings)} warping block(s): k(X, X*) deviates by "
+                         f"{dl:.3e} from base_kernel(warp(X), warp(X*)) (all blocks applied in turn)", {"spec": spec}))
     # jitter added by AddJitterOp (not modelled): read off the factor
     jit = float(np.mean(np.diag(L @ L.T) - np.diag(K) - s2))
     kmax = max(1.0, float(np.abs(K).max()))
@@ -1012,8 +1031,10 @@ def fd_tol(g, r, err, fscale):
 
 def gen_e2e09_fit(rng, tier):
     return {"kind": "e2e09_fit", "seed": rng.randrange(10 ** 9), "model": rng.choice(E2E_KINDS[:5]),
-            "d": rng.choice([1, 2, 3]), "n": rng.choice([2, 3, 5, 8] + ([12] if tier == "thorough" else [])),
-            "zero_mean": rng.random() < 0.3}
+            "d": rng.choice([1, 2, 3]), "n": rng.choice([1, 2, 3, 5, 8] + ([12] if tier == "thorough" else [])),
+            "zero_mean": rng.random() < 0.3,
+            # Box-Cox target transform incl. the lambda = 0 (log) corner and values next to it
+            "boxcox": rng.choice([None, None, None, "0", "0", "0.5", "-0.3", "5e-8", "random"])}
 
 
 def run_e2e09_fit(spec):
@@ -1026,17 +1047,31 @@ def run_e2e09_fit(spec):
     k, mean, lik = build_model(kind, d, spec["zero_mean"])
     X = features_for(rng, kind, d, n, "none")
     y = np.array([[math.sin(3 * X[i, 0]) + 0.3 * rng.gauss(0, 1)] for i in range(n)])
+    bc = spec.get("boxcox")
+    if bc is not None:
+        from syne_tune.optimizer.schedulers.searchers.bayesopt.gpautograd.target_transform import BoxCoxTargetTransform
+        tt = BoxCoxTargetTransform(initial_boxcox_lambda=None if bc == "random" else float(bc))
+        lik = GaussianProcessMarginalLikelihood(kernel=k, mean=mean, target_transform=tt)
+        lik.initialize(force_reinit=True)
+        y = np.exp(y)                       # Box-Cox needs positive targets
+        hist["boxcox:" + bc] = 1
     data = {"features": X, "targets": y}
     conv, vec = randomize_params(rng, lik, noise_lo=1e-3, noise_hi=1.0, span=1.5)
+    if bc is not None and bc != "random":
+        tt.set_boxcox_lambda(float(bc))
+        _, pd0 = create_lbfgs_arguments(lik, [data])
+        vec = np.asarray(ParamVecDictConverter(pd0).to_vec(), dtype=float)
     obj, pd = create_lbfgs_arguments(lik, [data])
     conv = ParamVecDictConverter(pd)
+    def scalar(z):
+        return float(np.asarray(z, dtype=float).reshape(-1)[0])
+
     val, grad = obj(vec.copy())
-    val, grad = float(val), np.asarray(grad, dtype=float)
+    val, grad = scalar(val), np.asarray(grad, dtype=float)
     conv.from_vec(vec.copy())
 
     def f(v):
-        r = float(obj(v.copy())[0])
-        return r
+        return scalar(obj(v.copy())[0])
     worst = 0.0
     for i in range(len(vec)):
         r, err = richardson(f, vec, i, 1e-3)
@@ -1050,7 +1085,7 @@ def run_e2e09_fit(spec):
     # value returned with the gradient equals the value alone
     from syne_tune.optimizer.schedulers.searchers.bayesopt.gpautograd.optimization_utils import add_regularizer_to_criterion
     conv.from_vec(vec.copy())
-    alone = float(add_regularizer_to_criterion(lik, [data]))
+    alone = scalar(add_regularizer_to_criterion(lik, [data]))
     if not close([val], [alone]):
         mon.append(F("c09:value-with-gradient-differs", f"criterion with gradient {val} != criterion alone {alone}", {"spec": spec}))
     hist["fit_params_checked"] = len(vec)
